@@ -97,7 +97,7 @@ func checkAgainstModel(c *mon.Ctx, prop string, a *model.Claims, g *model.Gen, s
 }
 
 func runC01(c *mon.Ctx) {
-	c.Rule("cases = abstract claims-sets: (a) exhaustive single-claim sweeps over every value class of every claim (byte lengths 0..80, UEID type byte 0..255, full single-edit neighbourhood of both certification-reference formats, 80 component-field combinations) on an otherwise valid random set, (b) all claim pairs x sampled class pairs, (c) triples and random products; each case is realised by direct field assignment, by CBOR decoding and by JSON decoding (with unrelated unknown members) and Validate + all getters are compared with the reference predicate. distinct_nontrivial = distinct (profile, claim=class...) signatures that deviate from the all-valid vector")
+	c.Rule("cases = abstract claims-sets: (a) exhaustive single-claim sweeps over every value class of every claim (byte lengths 0..80, UEID type byte 0..255, full single-edit neighbourhood of both certification-reference formats, 80 component-field combinations) on an otherwise valid random set, (b) all claim pairs x sampled class pairs, (c) triples and random products, (d) history independence: a valid object is validated and read, rewritten IN PLACE to a single-claim variant (fields overwritten, components edited through the pointers the getter handed out), observed, rewritten back, observed; each case is realised by direct field assignment, by CBOR decoding and by JSON decoding (with unrelated unknown members) and Validate + all getters are compared with the reference predicate. distinct_nontrivial = distinct (profile, claim=class...) signatures that deviate from the all-valid vector")
 	g := model.NewGen(c.Seed*977 + int64(c.Shard))
 	idx := 0
 	// (a) exhaustive sweeps
@@ -188,6 +188,82 @@ func runC01(c *mon.Ctx) {
 			c.Sample("product", map[string]any{"sig": s, "valid": a.Valid(), "case": abstractSample(a)})
 		}
 	}
+	// (d) "depends on nothing else": the verdict must be a function of the
+	// claims-set as it is NOW, not of what was validated / read before. A valid
+	// object is validated and read, then rewritten in place (exported fields;
+	// components through the pointers GetSoftwareComponents handed out, keeping
+	// the container object) into a single-claim variant, observed, rewritten
+	// back, observed again.
+	m := c.N(120000, 3000000)
+	for i := 0; i < m; i++ {
+		p := 1 + g.R.Intn(2)
+		a := g.Valid(p)
+		names := model.ClaimNames(p)
+		claim := names[g.R.Intn(len(names))]
+		if claim == "profile" {
+			continue // the canonical name is bookkeeping of the implementation, not rewritten
+		}
+		vs := model.VariantsCached(p, claim)
+		v := vs[g.R.Intn(len(vs))]
+		b := a.Clone()
+		v.Apply(b, g)
+		sig := fmt.Sprintf("history|P%d|%s=%s", p, claim, v.Name)
+		det := map[string]any{"sig": sig, "before": abstractSample(a), "after": abstractSample(b)}
+		if pn, pv, fr := mon.Guard(func() {
+			x, err := obs.Build(a)
+			if err != nil {
+				c.Count("route-unbuildable:direct")
+				return
+			}
+			first := obs.Observe(x) // Validate + every getter on the valid object
+			wantA := a.Expect()
+			if d := model.ObsDiff(&wantA, &first); d != "" {
+				return // the plain sweeps report this
+			}
+			retained, _ := x.GetSoftwareComponents()
+			_, _ = psatoken.ValidateAndEncodeClaimsToCBOR(x)
+			if err := obs.AssignInPlace(x, b, retained); err != nil {
+				c.Count("route-unbuildable:in-place")
+				return
+			}
+			c.Eval()
+			got := obs.Observe(x)
+			want := b.Expect()
+			if d := model.ObsDiff(&want, &got); d != "" {
+				det["want"], det["got"] = want.String(), got.String()
+				c.Violation(fmt.Sprintf("C01/history/P%d/%s", p, obsKey(&want, &got)), "after a successful Validate the object was rewritten in place; the verdict / getters do not follow the current content: "+d, det)
+				return
+			}
+			c.Count("history:rewritten-in-place")
+			if got.Validate != model.OK {
+				c.Count("history:valid-then-invalid")
+			}
+			// and back
+			// the pointers handed out at the beginning are still the ones in
+			// the container only if the first rewrite edited through them
+			var retained2 []psatoken.ISwComponent
+			if len(retained) > 0 && len(retained) == len(b.Comps) {
+				retained2 = retained
+			}
+			if err := obs.AssignInPlace(x, a, retained2); err != nil {
+				return
+			}
+			c.Eval()
+			back := obs.Observe(x)
+			if d := model.ObsDiff(&wantA, &back); d != "" {
+				det["want"], det["got"] = wantA.String(), back.String()
+				c.Violation(fmt.Sprintf("C01/history-back/P%d/%s", p, obsKey(&wantA, &back)), "object rewritten back to its valid content; the verdict / getters do not follow: "+d, det)
+				return
+			}
+			c.Count("history:rewritten-back")
+		}); pn {
+			det["panic"], det["frame"] = pv, fr
+			c.Violation("C01/panic/"+mon.PanicKey(fr), "panic while rewriting / validating an object in place", det)
+		}
+		c.Sig(sig)
+	}
+	c.Floor("history:valid-then-invalid", 1000)
+	c.Floor("history:rewritten-back", 1000)
 	c.Floor("accepted", 1000)
 	c.Floor("rejected", 1000)
 	c.Floor("certref-neighbours", 1000)
